@@ -23,7 +23,9 @@ def run(ck, tier):
     ck.require(len(gen) >= 8, "too few instances generated: %d" % len(gen))
     # prefer instances with grinding and with width > 8 (two segments), keep it affordable
     gen.sort(key=lambda c: (-(c["desc"]["width"] > 8), -min(c["opts"]["grind"], 1), -c["desc"]["log_len"]))
-    cases = gen[: (24 if thorough else 7)]
+    fixed = starklib.generate(ck, "DetStarkCfg.cfg", "fixed-instances", tag="DET")
+    ck.require(len(fixed) >= 4, "fixed instance list missing")
+    cases = fixed + gen[: (24 if thorough else 5)]
     ck.require(any(c["desc"]["width"] > 8 for c in cases), "no multi-segment instance")
     ck.require(any(c["opts"]["grind"] > 0 for c in cases), "no instance with grinding")
     ck.require(any(c["desc"]["log_len"] + {2: 1, 4: 2, 8: 3, 16: 4, 32: 5, 64: 6, 128: 7}[c["opts"]["blowup"]] >= 11 for c in cases),
